@@ -6,7 +6,8 @@
 From Coq Require Import Permutation.
 From Amgcl Require Import Scalar QcInst Vec Crs KernelsProofs DirectUtil CuthillMcKee Direct Inverse StaticMat Qr DirectSpec
      CuthillMcKeeProofs DirectProofs InverseProofs StaticMatProofs CroutProofs InverseExact QrProofs
-     QrMathAlg QrMathRefl QrMathCompute QrMathFactor QrMathSolve QrMathMain QrMathLsq QrMathR QrMathEx.
+     QrMathAlg QrMathRefl QrMathCompute QrMathFactor QrMathSolve QrMathMain QrMathLsq QrMathRank QrMathR QrMathEx
+     InversePivot InversePivotQc.
 Local Open Scope S_scope.
 
 (* ------------------------------------------------------------------------------------ *)
@@ -163,11 +164,8 @@ Theorem C16_inverse_exact n (A t B : vec S) :
   forall i j, i < n -> j < n -> mat_mul_get n A B i j = if Nat.eqb i j then s1 else s0.
 Proof. intros HA Ht. exact (inverse_exact Sft Seqb sinv_0 n A HA t B Ht). Qed.
 
-(* FULL STATEMENT (unproved): A3-B (ordered field): A non-singular -> inverse n A t <> None
-   (partial pivoting by |.| only ever picks a zero pivot when the whole remaining column is zero).
-   Tested instead: singular inputs give "assert" on both sides, non-singular ones never do
-   (exact correspondence + spec oracle A*inv(A) = I, n <= 4 (6 thorough) incl. exhaustive 2x2 over
-   {-2..2} and 3x3 over {-1,0,1}). *)
+(* A3-B (ordered field): A non-singular -> inverse n A t <> None: proved at the end of this file
+   (section InversePivoting, C16_inverse_nonsingular; closed at Qc). *)
 End Field.
 
 (* ------------------------------------------------------------------------------------ *)
@@ -419,6 +417,37 @@ Theorem C16_qr_solve_minimum_norm (cm : bool) m n (A b : vec S) :
   (forall z : nat -> S, (forall r, r < m -> sumn (fun c => vget A (r * rs + c * cs) * z c) n = s0) ->
      sumn (fun c => vget x c * z c) n = s0).
 Proof. exact (qr_solve_wide_correct Sft Seqb Hadj Habs Hsqrt Hreal cm m n A b). Qed.
+(* "full rank" literally: linearly independent columns leave no zero on the diagonal of R ... *)
+Theorem C16_qr_full_rank_diag (cm : bool) m n (A : vec S) :
+  length A = (m * n)%nat -> n <= m ->
+  let rs := qr_rs cm m n in let cs := qr_cs cm m n in
+  col_independent m n (fun r c => vget A (r * rs + c * cs)) ->
+  forall i, i < n -> qr_R rs cs (fst (qr_compute m n rs cs A)) i i <> s0.
+Proof. exact (qr_full_rank_diag_cm Sft Seqb Hadj Habs Hsqrt Hreal cm m n A). Qed.
+
+(* ... hence solve() returns the least-squares solution for EVERY matrix of full column rank (rows >= cols)
+   and the minimum-norm solution for EVERY matrix of full row rank (rows < cols) *)
+Theorem C16_qr_solve_full_column_rank (cm : bool) m n (A b : vec S) :
+  length A = (m * n)%nat -> m <= length b -> n <= m ->
+  let rs := qr_rs cm m n in let cs := qr_cs cm m n in
+  col_independent m n (fun r c => vget A (r * rs + c * cs)) ->
+  let x := qr_solve m n rs cs A b in
+  length x = n /\
+  forall c, c < n ->
+    sumn (fun r => vget A (r * rs + c * cs) *
+                   (sumn (fun j => vget A (r * rs + j * cs) * vget x j) n - vget b r)) m = s0.
+Proof. exact (qr_solve_full_column_rank Sft Seqb Hadj Habs Hsqrt Hreal cm m n A b). Qed.
+
+Theorem C16_qr_solve_full_row_rank (cm : bool) m n (A b : vec S) :
+  length A = (m * n)%nat -> m <= length b -> m < n ->
+  let rs := qr_rs cm m n in let cs := qr_cs cm m n in
+  col_independent n m (fun c r => vget A (r * rs + c * cs)) ->
+  let x := qr_solve m n rs cs A b in
+  length x = n /\
+  (forall r, r < m -> sumn (fun c => vget A (r * rs + c * cs) * vget x c) n = vget b r) /\
+  (forall z : nat -> S, (forall r, r < m -> sumn (fun c => vget A (r * rs + c * cs) * z c) n = s0) ->
+     sumn (fun c => vget x c * z c) n = s0).
+Proof. exact (qr_solve_full_row_rank Sft Seqb Hadj Habs Hsqrt Hreal cm m n A b). Qed.
 End QrCorrect.
 
 (* the hypotheses are satisfiable: closed instances at the real numbers of the standard library with
@@ -438,31 +467,30 @@ Theorem C16_qr_factorize_correct_R (cm : bool) m n (A q : vec RS) :
 Proof. exact (qr_factorize_correct_R cm m n A q). Qed.
 Print Assumptions C16_qr_factorize_correct_R.
 
-(* least squares, literally: |A x - b|^2 <= |A z - b|^2 for every z *)
+(* least squares, literally: for every matrix of full column rank, |A x - b|^2 <= |A z - b|^2 for every z *)
 Theorem C16_qr_solve_least_squares_R (cm : bool) m n (A b : vec RS) :
   length A = (m * n)%nat -> m <= length b -> n <= m ->
   let rs := qr_rs cm m n in let cs := qr_cs cm m n in
-  (forall i, i < n -> qr_R rs cs (fst (qr_compute m n rs cs A)) i i <> s0) ->
-  let x := qr_solve m n rs cs A b in
   let a := fun r c => vget A (r * rs + c * cs) in
+  col_independent m n a ->
+  let x := qr_solve m n rs cs A b in
   length x = n /\
-  (forall c, c < n -> sumn (fun r => a r c * (mulv n a (vget x) r - vget b r)) m = s0) /\
   forall z : nat -> RS,
     Rdefinitions.Rle (@nrm2 RS m (fun r => mulv n a (vget x) r - vget b r)) (@nrm2 RS m (fun r => mulv n a z r - vget b r)).
-Proof. exact (qr_solve_least_squares_R cm m n A b). Qed.
+Proof. exact (qr_solve_least_squares_full_rank_R cm m n A b). Qed.
 Print Assumptions C16_qr_solve_least_squares_R.
 
-(* minimum norm, literally: A x = b and |x|^2 <= |z|^2 for every z with A z = b *)
+(* minimum norm, literally: for every matrix of full row rank, A x = b and |x|^2 <= |z|^2 for every z with A z = b *)
 Theorem C16_qr_solve_minimum_norm_R (cm : bool) m n (A b : vec RS) :
   length A = (m * n)%nat -> m <= length b -> m < n ->
   let rs := qr_rs cm m n in let cs := qr_cs cm m n in
-  (forall i, i < m -> qr_R cs rs (fst (qr_compute n m cs rs A)) i i <> s0) ->
-  let x := qr_solve m n rs cs A b in
   let a := fun r c => vget A (r * rs + c * cs) in
+  col_independent n m (fun c r => a r c) ->
+  let x := qr_solve m n rs cs A b in
   length x = n /\
   (forall r, r < m -> mulv n a (vget x) r = vget b r) /\
   forall z : nat -> RS, (forall r, r < m -> mulv n a z r = vget b r) -> Rdefinitions.Rle (@nrm2 RS n (vget x)) (@nrm2 RS n z).
-Proof. exact (qr_solve_min_norm_R cm m n A b). Qed.
+Proof. exact (qr_solve_min_norm_full_rank_R cm m n A b). Qed.
 Print Assumptions C16_qr_solve_minimum_norm_R.
 
 (* non-vacuity over the exact rationals: a 3x2 matrix (both storage orders) whose column norms met by
@@ -472,3 +500,61 @@ Example C16_qr_nonvacuous :
   qr_check false 3 2 qr_ex_row (repeat (qc 7 1) 6) = true /\
   qr_check true 3 2 qr_ex_col (repeat (qc 7 1) 6) = true.
 Proof. vm_compute. split; reflexivity. Qed.
+
+(* ------------------------------------------------------------------------------------ *)
+(* A3-B.  detail::inverse with partial pivoting by |.|: in a field with a strict order for which
+   sabs behaves like an absolute value (Oabs_0, Oabs_pos) the pivot search returns an entry of largest
+   magnitude of the remaining column; a zero pivot therefore means that the remaining column is zero,
+   which makes the matrix singular (invariant P A0 = L U + remaining block).  Hence: non-singular
+   (linearly independent columns; implied by the existence of a left or two-sided inverse)
+   => every chosen pivot is non-zero => inverse() returns, and A * inverse(A) = I. *)
+Section InversePivoting.
+Variable S : Scalar.
+Hypothesis Sft : Sfield S.
+Hypothesis Seqb : seqb_spec S.
+Hypothesis sinv_0 : sinv (@s0 S) = s0.
+Hypothesis Olt_irrefl : forall a : S, sltb a a = false.
+Hypothesis Olt_trans : forall a b c : S, sltb a b = true -> sltb b c = true -> sltb a c = true.
+Hypothesis Oabs_0 : sabs (@s0 S) = s0.
+Hypothesis Oabs_pos : forall x : S, x <> s0 -> sltb s0 (sabs x) = true.
+
+Theorem C16_inverse_pivot_is_largest n (A : vec S) p col : col < n ->
+  let m := find_pivot n A p col in
+  (forall j, col <= j < n -> sltb (sabs (view n A p m col)) (sabs (view n A p j col)) = false) /\
+  (view n A p m col = s0 -> forall j, col <= j < n -> view n A p j col = s0).
+Proof. exact (find_pivot_max Seqb Olt_irrefl Olt_trans Oabs_0 Oabs_pos n A p col). Qed.
+
+Theorem C16_inverse_nonsingular n (A t : vec S) :
+  length A = (n * n)%nat -> length t = (n * n)%nat -> nonsingular n A ->
+  exists B, inverse n A t = Some B /\
+    forall i j, i < n -> j < n -> mat_mul_get n A B i j = if Nat.eqb i j then s1 else s0.
+Proof. exact (inverse_nonsingular Sft Seqb sinv_0 Olt_irrefl Olt_trans Oabs_0 Oabs_pos n A t). Qed.
+
+Theorem C16_left_inverse_nonsingular n (A : vec S) (X : nat -> nat -> S) :
+  (forall i j, i < n -> j < n -> sumn (fun k => X i k * mat_get n A k j) n = if Nat.eqb i j then s1 else s0) ->
+  nonsingular n A.
+Proof. exact (left_inverse_nonsingular Sft n A X). Qed.
+End InversePivoting.
+
+Theorem C16_inverse_nonsingular_Qc n (A t : vec QcS) :
+  length A = (n * n)%nat -> length t = (n * n)%nat -> nonsingular n A ->
+  exists B, inverse n A t = Some B /\
+    forall i j, i < n -> j < n -> mat_mul_get n A B i j = if Nat.eqb i j then s1 else s0.
+Proof. exact (inverse_nonsingular_Qc n A t). Qed.
+Print Assumptions C16_inverse_nonsingular_Qc.
+
+(* non-vacuity: [[0,1],[1,1]] is non-singular (explicit left inverse [[-1,1],[1,0]]) and needs the row
+   exchange (the first candidate pivot is zero); the model returns its inverse *)
+Example C16_inverse_pivot_nonvacuous :
+  let A : vec QcS := [qc 0 1; qc 1 1; qc 1 1; qc 1 1] in
+  nonsingular 2 A /\
+  match inverse 2 A [qc 9 1; qc 9 1; qc 9 1; qc 9 1] with
+  | Some B => DirectSpec.vec_eqb B [qc (-1) 1; qc 1 1; qc 1 1; qc 0 1] = true
+  | None => False
+  end.
+Proof.
+  split.
+  - apply (left_inverse_nonsingular QcS_field 2 _ (fun i k => vget [qc (-1) 1; qc 1 1; qc 1 1; qc 0 1] (i * 2 + k))).
+    intros [|[|i]] [|[|j]] Hi Hj; try lia; apply QcS_eqb; vm_compute; reflexivity.
+  - vm_compute. reflexivity.
+Qed.
